@@ -304,8 +304,10 @@ class Run:
                 self.broken.append(("axioms", "unexpected assumptions: %s" % sorted(extra)))
             else:
                 self.discharged += 1
+        definitional = set(getattr(self.mod, "DEFINITIONAL", []))
         self.cov["theorems"] = {
-            "proved": [t for t in thms if not t.endswith("_refuted") and not t.endswith("_partial")],
+            "proved": [t for t in thms if not t.endswith("_refuted") and not t.endswith("_partial") and t not in definitional],
+            "definitional": [t for t in thms if t in definitional],
             "partial": [t for t in thms if t.endswith("_partial")],
             "refuted": [t for t in thms if t.endswith("_refuted")],
         }
